@@ -1,5 +1,6 @@
 import Dashu.Driver.Loop
 import Dashu.Model.Int.Ops
+import Dashu.Model.Int.Pow
 /-
   Driver of group `int` (C01, C02): runs the mirrored model; beside every result it evaluates the
   `Int`/`Nat` specification and appends ` !model-spec-mismatch` if they differ (cannot happen for
@@ -44,6 +45,12 @@ def dispatch : Dispatch := fun W op args =>
     let x ← parseNat a
     let s := (ofNat W x).sqr W
     pure (chk (natToHex (((ofNat W x).mul W s).value W)) (natToHex (x * x * x)))
+  | "u.pow", [a, e] => do
+    let x ← parseNat a; let n ← parseDecNat e
+    pure (chk (natToHex ((ubigPow W (ofNat W x) n).value W)) (natToHex (x ^ n)))
+  | "i.pow", [a, e] => do
+    let x ← parseInt a; let n ← parseDecNat e
+    pure (chk (sreprToStr W (ibigPow W (.ofInt W x) n)) (intToHex (x ^ n)))
   | "i.add", [a, b] => do
     let x ← parseInt a; let y ← parseInt b
     let m := forms3 fun f => sreprToStr W (ibigAdd W (.ofInt W x) (.ofInt W y) f)
